@@ -558,19 +558,32 @@ def rand_layered_graph(rng, length, wmax, maxpar=2, dangling=False, menu_size=No
             for v in layers[l + 1]:
                 if rng.random() < pdens:
                     mult[(u, v)] = 1 + int(maxpar > 1 and rng.random() < 0.3)
-        if not dangling:
-            for u in layers[l]:
-                if not any(a == u for a, b in mult):
-                    mult[(u, layers[l + 1][int(rng.integers(len(layers[l + 1])))])] = 1
-            for v in layers[l + 1]:
-                if not any(b == v for a, b in mult):
-                    mult[(layers[l][int(rng.integers(len(layers[l])))], v)] = 1
-        elif not mult:
-            mult[(layers[l][0], layers[l + 1][0])] = 1
+        for u in layers[l]:
+            if not any(a == u for a, b in mult):
+                mult[(u, layers[l + 1][int(rng.integers(len(layers[l + 1])))])] = 1
+        for v in layers[l + 1]:
+            if not any(b == v for a, b in mult):
+                mult[(layers[l][int(rng.integers(len(layers[l])))], v)] = 1
         for (u, v), m in sorted(mult.items()):
             for _ in range(m):
                 edges.append([eid, u, v, [list(x) for x in menu[int(rng.integers(len(menu)))]]])
                 eid += 1
+    if dangling and length >= 2:
+        # extra interior nodes with incoming edges only (dead end) or outgoing edges only (unreachable)
+        for _ in range(int(rng.integers(1, 3))):
+            l = int(rng.integers(1, length))
+            nodes.append([nid, int(rng.choice(charges))])
+            if rng.random() < 0.5:
+                for u in layers[l - 1]:
+                    if rng.random() < 0.7 or u == layers[l - 1][0]:
+                        edges.append([eid, u, nid, [list(x) for x in menu[int(rng.integers(len(menu)))]]])
+                        eid += 1
+            else:
+                for v in layers[l + 1]:
+                    if rng.random() < 0.7 or v == layers[l + 1][0]:
+                        edges.append([eid, nid, v, [list(x) for x in menu[int(rng.integers(len(menu)))]]])
+                        eid += 1
+            nid += 1
     return dict(nodes=nodes, edges=edges, term=[layers[0][0], layers[-1][0]])
 
 
